@@ -182,7 +182,7 @@ class TableFilter:
         if self.fault_at is not None and self.count == self.fault_at:
             # every other fault index raises a StopIteration (only neighbors() / find_links() are called with
             # faults through the protocol: plain functions, through which it must propagate like any exception)
-            raise (StopFault if self.fault_at % 2 == 0 else Fault)()
+            raise (pool.HardFault if self.fault_at % 3 == 2 else StopFault if self.fault_at % 2 == 0 else Fault)()
         link = args[0]
         x = args[1] if len(args) > 1 else None
         code = 0 if x is None else self.ad.vname(x) + 1
@@ -840,6 +840,8 @@ class Real:
             return self.dispatch(toks)
         except pool.Interrupt:
             return "err ValueError"          # "the constructor raised": which class it raised is not part of the protocol
+        except pool.HardFault:
+            return "err Fault"
         except Exception as exc:  # noqa: BLE001
             return "err " + errname(exc)
 
